@@ -32,7 +32,7 @@ def check(ctx):
         if acc:
             failures.append({"case": r["line"], "check": "accepted",
                              "detail": {"text": r["case"]["text"], "what": acc[:3]},
-                             "guards": set(r["causes_cst"]), "model_agrees": True,
+                             "guards": set(r["causes_cst"]), "model_agrees": r["model_agrees_cst"],
                              "replay_how": "echo '<input>' | /verif/harness/target/debug/oq3-run tree   (field errors= must be empty)"})
         else:
             nontriv += 1
